@@ -14,7 +14,7 @@ let bytes_eq (a : z list) (b : z list) = (a = b)
    P = cJSON_Print, U = cJSON_PrintUnformatted, B = cJSON_PrintBuffered(prebuffer, fmt) *)
 let h_print (a : string array) : string =
   let entry = a.(1).[0] in
-  let fmt = (match entry with 'P' -> true | 'U' -> false | _ -> a.(2) = "1") in
+  let fmt = (match entry with 'P' -> true | 'U' -> false | _ -> a.(2) <> "0") in
   let pre = int_of_string a.(3) in
   let have_realloc = a.(4) = "realloc" in
   let failk = int_of_string a.(5) in
@@ -41,7 +41,7 @@ let pattern (pat : int) (i : int) : int =
 (* prealloc <n> <fmt> <pattern> <tree>
      -> <0|1> <hex of the buffer up to its first zero, when 1 | -> buf=<hex of the n bytes> canary=ok live=<k> reqs=<k> *)
 let h_prealloc (a : string array) : string =
-  let n = int_of_string a.(1) in let fmt = a.(2) = "1" in let pat = int_of_string a.(3) in
+  let n = int_of_string a.(1) in let fmt = a.(2) <> "0" in let pat = int_of_string a.(3) in
   let pos = ref 4 in let t = parse_node a pos in
   let m = if n > 0 then n else 0 in
   let buf = List.init m (fun i -> z_of_int (pattern pat i)) in
